@@ -25,6 +25,10 @@ CHECKS = {
  'C09': dict(cat='exploration', technique='bounded-exhaustive enumeration of interface constructs (alone, pairs, option sets); every generated translation unit compiled (g++ -fsyntax-only, templates instantiated) against a generated mock library',
              text='24 interface constructs (operators, defaults with quotes/brackets, nested template arguments, templates, typedefs, enums at every scope, inheritance, variables, serialization/print, keyword names, name-collision shapes) alone under 5 option sets and in every unordered (ordered) pair; each emitted TU must compile against a mock library that declares the entities as written; lexical checks (lambda parameters vs py::arg list, balanced brackets) on every output.',
              note='Mock library generator trusted (it is compiled on its own first; a mock that does not compile is a harness error, not a verdict). No Eigen/Boost in the image.', ref='2/C09'),
+
+ 'C04': dict(cat='exploration', technique='bounded-exhaustive enumeration of callables (kind x argument pattern x default mask x return shape x scope); generated modules are compiled, imported and every binding executed against an instrumented mock library that records entity, this, argument values and result',
+             text='Every callable of the family (12 argument patterns x every trailing default mask + 13 return shapes, as method / const method / static / function / constructor, in up to 3 scopes) plus overload sets, class/method/function templates with explicit arguments, 30 operators, properties, enumerators, inheritance and variables is compiled from the real generator output and called positionally, with reversed keywords, mixed, with each defaulted suffix omitted, with an extra argument and without instance; the recorded C++ call must be the declared entity with the supplied values in declared order, defaults filled by the declared literals, and the result returned (None for void).',
+             note='Mock library generator and driver trusted; types limited to what can be implemented without Eigen/Boost.', ref='2/C04'),
 }
 NOT_YET = 'check not built yet in this session (see DESIGN.md for the planned exhaustive exploration)'
 
